@@ -469,6 +469,11 @@ def gen_ops(tier, rng):
             idx = rng.choice([0x2000, 0x2001, 0x6040, 0x1018, 0xFFFF])
             sub = 0 if kind == "v" else rng.choice([0, 1, 2, 5, 255] if kind == "r" else [1, 2, 5])
             vd = (t, 0, None, None)
+            if rng.random() < 0.25:
+                # configurations: the dictionary carries a ParameterValue and / or a default for the object
+                # (another value of the same type); what was written wins over both
+                other = rng.choice(values(t, rng, "quick"))
+                vd = rng.choice([(t, 0, other, None), (t, 0, None, other), (t, 0, other, rng.choice(values(t, rng, "quick")))])
             if kind == "v":
                 entries = [("v", idx, vd)]
             else:
